@@ -68,5 +68,58 @@ func runGraphs(c *Ctx, prop string, width, depth int) error {
 			}
 		}
 	}
+	// ---- the same struct type validated repeatedly: with a per-call rule override on one field, then plainly.
+	// Every call is judged on its own (by its own arguments): the expectation of each is built independently.
+	pairs := n / 6
+	for i := 0; i < pairs; i++ {
+		g := newWgen(c.Rng.Fork())
+		proto := g.buildStructType(0)
+		for round := 0; round < 3; round++ {
+			sv, exps := proto.fill(g, "")
+			call := &walkCall{Entry: "struct", Src: sv.Addr().Interface()}
+			kind := "plain"
+			if round == 0 || (round == 2 && g.r.Bool()) {
+				pf := proto.fields[g.r.Intn(len(proto.fields))]
+				rv := pf.sp.rules[g.r.Intn(len(pf.sp.rules))]
+				m := g.mark()
+				call.HasUnsc = true
+				call.Unscoped = map[string]string{pf.name: rv.text + "|" + m}
+				// the override replaces the field's tag rules for this call only
+				var ne []expE
+				done := false
+				zero := sv.FieldByName(pf.name).IsZero()
+				for _, pf2 := range proto.fields {
+					if pf2.name == pf.name {
+						if rv.viol && !zero {
+							ne = append(ne, expE{"C", pf.name, m})
+						}
+						done = true
+						continue
+					}
+					for _, e := range exps {
+						if e.path == pf2.name {
+							ne = append(ne, e)
+						}
+					}
+				}
+				_ = done
+				exps = ne
+				kind = "override"
+			}
+			var specs []string
+			if len(exps) == 0 {
+				specs = []string{"SNil"}
+			} else {
+				specs = []string{"SExpect true " + galExps(exps)}
+			}
+			specs = append(specs, "SNoPanic")
+			term, desc := call.caseTerm(specs)
+			desc["expected_clauses"] = len(exps)
+			desc["round"] = round
+			desc["call"] = kind
+			w.Add(term, desc, fmt.Sprintf("repeat:%s:r%d:n%d", kind, round, len(exps)))
+			w.Count("repeat." + kind)
+		}
+	}
 	return w.Flush()
 }
